@@ -72,10 +72,15 @@ def join(
     for pp in paths_in:
         with new_dataset(pp) as dsa:
             # sorting key
-            key = "_".join([dsa.config["experiment"]["date"],
-                            dsa.config["experiment"]["time"],
-                            str(dsa.config["experiment"]["run index"])
-                            ])
+            # Sort chronologically: The fractional part of the seconds
+            # is optional, so the time strings cannot be compared directly
+            # ("10:00:00.5" < "10:00:00_1", because "." < "_").
+            etime = dsa.config["experiment"]["time"]
+            key = (dsa.config["experiment"]["date"],
+                   etime[:8],
+                   float(etime[8:] or 0),
+                   dsa.config["experiment"]["run index"],
+                   )
             key_paths.append((key, pp))
     sorted_paths = [p[1] for p in sorted(key_paths, key=lambda x: x[0])]
 
@@ -114,7 +119,7 @@ def join(
                 else:
                     # Remove features from the feature list, if it is not in
                     # this dataset, or cannot be computed on-the-fly.
-                    for feat in features:
+                    for feat in list(features):
                         if feat not in dsc.features:
                             features.remove(feat)
                             warnings.warn(
